@@ -42,7 +42,7 @@ try:
         viol=[l.strip() for l in out.split('\n') if l.startswith('  oracle=')]
         meta['checks'][p]={'exit':rc,'verdict':{0:'MISSED',1:'caught',2:'infra'}.get(rc,str(rc)),'wall_s':round(time.time()-t0,1),'oracles':[v[:220] for v in viol[:6]], 'tail':out.strip().split('\n')[-1][:200]}
 finally:
-    sh('git -C /repo checkout -- .')
+    sh('git -C /repo checkout -- . && git -C /repo clean -fdq')
 rc,out=sh('git -C /repo status --porcelain'); assert out.strip()=='', out
 dst='/verif/seeded/'+name
 os.makedirs(dst,exist_ok=True)
